@@ -39,6 +39,8 @@ pub mod ev {
     /// what one environment binds a name to (uninterpreted per implementation; each impl's get_var is specified against it)
     pub uninterp spec fn binds<E: ?Sized>(e: &E, var: Seq<char>) -> Option<Seq<Part>>;
 
+    /// the trait object for an environment (unsizing coercion, as in `&[&b.vars, env]`)
+    pub open spec fn dynenv<E: Env>(e: &E) -> &dyn Env { e }
     // C11: "first env that binds the name wins, nested references continue in the following envs only;
     //       undefined variables expand to the empty string"
     pub open spec fn eval(parts: Seq<Part>, envs: Seq<&dyn Env>) -> Seq<char>
@@ -59,6 +61,13 @@ pub mod ev {
                 None => lookup(v, envs, i + 1) }
         }
     }
+    /// well-formedness an environment needs for get_var (true for the map-like ones; BuildImplicitVars needs valid ids)
+    pub uninterp spec fn env_ok<E: ?Sized>(e: &E) -> bool;
+    pub open spec fn envs_ok(envs: Seq<&dyn Env>) -> bool { forall|i: int| 0 <= i < envs.len() ==> env_ok(#[trigger] envs[i]) }
+    pub broadcast axiom fn ax_env_ok_vars(v: &Vars)
+        ensures #[trigger] env_ok(v);
+    pub broadcast axiom fn ax_cow_owned(s: String)
+        ensures #[trigger] crate::cow_view(std::borrow::Cow::Owned(s)) == s@;
     pub broadcast proof fn lemma_parts_view_one<T: VxAsStr>(p: EvalPart<T>)
         ensures #[trigger] parts_view(seq![p]) == seq![part_view(p)]
     {
